@@ -6,4 +6,7 @@ for c in "$@"; do
   ( cd /verif && timeout 1800 python3 check.py $c --tier ${TIER:-quick} > /tmp/seeded_$c.out 2>&1; echo "$c rc=$?"; grep -E "^VIOLATION|class=|KNOWN|ERROR" /tmp/seeded_$c.out | head -${LINES_MAX:-6} )
 done
 git -C /repo checkout -- .
+# evidence and replay files written against the mutated tree are not evidence: restore them
+git -C /verif checkout -- evidence 2>/dev/null
+git -C /verif clean -fdq replays 2>/dev/null
 git -C /repo status --short | grep -v _build
